@@ -304,6 +304,7 @@ class Normaliser:
     # ---- driver
     def run(self):
         self.n35_dead_code()
+        self.n36_local_list_remove()
         self.n1_module_constants()
         self.n1b_class_constants()
         self.n32_kwargs_helpers()
@@ -345,6 +346,43 @@ class Normaliser:
                 from .model import AnalysisError
                 raise AnalysisError(f'normalisation produced an ill-formed module {rel}: {e}')
         return self
+
+    # ---- N36
+    def n36_local_list_remove(self):
+        """`L.remove(x)` as a statement, L a local name that is only ever bound to lists (display, comprehension, list(...), `[]`) in its function,
+        x free of effects  ->  `L.pop(L.index(x))` (the same element leaves, ValueError when absent in both spellings).  Rules about token lists
+        count `pop`s; the two spellings of "take this token out of the list" must not differ."""
+        for rel, tree in self.trees.items():
+            for fn in fn_nodes(tree):
+                binds: Dict[str, list] = {}
+                for n in ast.walk(fn):
+                    if isinstance(n, ast.Assign):
+                        for t in n.targets:
+                            if isinstance(t, ast.Name):
+                                binds.setdefault(t.id, []).append(n.value)
+                    elif isinstance(n, (ast.AugAssign, ast.AnnAssign)) and isinstance(n.target, ast.Name):
+                        binds.setdefault(n.target.id, []).append(None)
+                    elif isinstance(n, (ast.For, ast.comprehension)):
+                        for x in ast.walk(n.target):
+                            if isinstance(x, ast.Name):
+                                binds.setdefault(x.id, []).append(None)
+                params = {a.arg for a in fn.args.args + fn.args.kwonlyargs}
+
+                def is_list(v):
+                    return isinstance(v, (ast.List, ast.ListComp)) or (isinstance(v, ast.Call) and isinstance(v.func, ast.Name) and v.func.id == 'list')
+                for n in ast.walk(fn):
+                    if isinstance(n, ast.Expr) and isinstance(n.value, ast.Call) and isinstance(n.value.func, ast.Attribute) and n.value.func.attr == 'remove' \
+                            and isinstance(n.value.func.value, ast.Name) and len(n.value.args) == 1 and not n.value.keywords:
+                        name = n.value.func.value.id
+                        if name in params or not binds.get(name) or not all(v is not None and is_list(v) for v in binds[name]):
+                            continue
+                        if not self._effect_free(n.value.args[0]):
+                            continue
+                        idx = ast.Call(func=ast.Attribute(value=ast.Name(id=name, ctx=ast.Load()), attr='index', ctx=ast.Load()), args=[n.value.args[0]], keywords=[])
+                        n.value = ast.copy_location(ast.Call(func=ast.Attribute(value=ast.Name(id=name, ctx=ast.Load()), attr='pop', ctx=ast.Load()),
+                                                             args=[idx], keywords=[]), n.value)
+                        ast.fix_missing_locations(n)
+                        self.note('N36_remove_to_pop_index', f'{rel}:{fn.name} {name}')
 
     # ---- N35
     _PURE_BUILTINS = {'len', 'list', 'tuple', 'reversed', 'sorted', 'enumerate', 'range', 'zip', 'str', 'int', 'float', 'bool', 'abs', 'min', 'max',
